@@ -218,3 +218,27 @@ T("C12", "twin-dec-undecided-state-machine", F, DEC_HEAD + LOOP + "        # log
   "            esc = text[i]\n            i += 1\n            if esc in simple:\n                out.append(simple[esc])\n            elif esc in \"xu\":\n                n = 2 if esc == \"x\" else 4\n"
   "                if i + n > len(text):\n                    raise ValueError(\"short\")\n                out.append(int(\"\".join(text[i + n - 2 : i + n]), 16))\n                i += n\n        return bytes(out)\n")
 T("C12", "twin-enc-undecided-translate", F, QREP, "        value = value.translate({34: '\\\\\"'})\n")
+
+# ---------------------------------------------------------------------------------------------- symbolic characters
+# the decoder is analysed with the characters symbolic: the code of an ordinary character is the term ord(c); a mask that
+# keeps all eight bits of a code in 0..255 is the identity (known-bits lemma), one that clears a bit is not
+T("C12", "twin-dec-plain-mask-ff", F, ELSE_ORD, "            else:\n                buffer.append(ord(c) & 0xFF)\n")
+T("C12", "twin-dec-plain-mod-256", F, ELSE_ORD, "            else:\n                buffer.append(ord(c) % 256)\n")
+M("C12", "dec-plain-mask-7f", F, ELSE_ORD, "            else:\n                buffer.append(ord(c) & 0x7F)\n", "C12.R2")
+M("C12", "dec-plain-mod-128", F, ELSE_ORD, "            else:\n                buffer.append(ord(c) % 128)\n", "C12.R2")
+M("C12", "dec-plain-appended-twice", F, ELSE_ORD, "            else:\n                buffer.append(ord(c))\n                buffer.append(ord(c))\n", "C12.R2")
+# the backslash / an escape letter recognised by its code
+T("C12", "twin-dec-compare-by-code", F, "", "", edits=[
+    (F, "            if c == \"\\\\\" and it.has_next():\n", "            if ord(c) == 0x5C and it.has_next():\n"),
+    (F, "                elif next2 == \"n\":\n", "                elif ord(next2) == 0x6E:\n")])
+M("C12", "dec-compare-by-wrong-code", F, "                elif next2 == \"n\":\n", "                elif ord(next2) == 0x6D:\n", "C12.R2")
+# the "any other character" case of the escape letter must stay silent (both characters dropped)
+M("C12", "dec-other-letter-kept", F, "                    buffer.append(ord(\"'\"))\n", "                    buffer.append(ord(\"'\"))\n                else:\n                    buffer.append(ord(next2))\n", "C12.R2")
+M("C12", "dec-simple-escape-appends-letter-code", F, "                    buffer.append(ord(\"\\n\"))\n", "                    buffer.append(ord(next2))\n", "C12.R2")
+# STRING body: classes decided on the parsed syntax tree (interval cover / complementary categories)
+T("C12", "twin-gram-digit-nondigit-class", "c2profile.lark", "STRING: \"\\\"\" /(.|\\n)*?/ /(?<!\\\\)(\\\\\\\\)*?/ \"\\\"\"", "STRING: /\"[\\d\\D]*?(?<!\\\\)(\\\\\\\\)*?\"/")
+T("C12", "twin-gram-range-class", "c2profile.lark", "STRING: \"\\\"\" /(.|\\n)*?/ /(?<!\\\\)(\\\\\\\\)*?/ \"\\\"\"", "STRING: /\"[\\x00-\\U0010ffff]*?(?<!\\\\)(\\\\\\\\)*?\"/")
+M("C12", "gram-body-excludes-quote", "c2profile.lark", "STRING: \"\\\"\" /(.|\\n)*?/ /(?<!\\\\)(\\\\\\\\)*?/ \"\\\"\"", "STRING: \"\\\"\" /[^\"]*?/ /(?<!\\\\)(\\\\\\\\)*?/ \"\\\"\"", "C12.R4")
+M("C12", "gram-body-ascii-only", "c2profile.lark", "STRING: \"\\\"\" /(.|\\n)*?/ /(?<!\\\\)(\\\\\\\\)*?/ \"\\\"\"", "STRING: \"\\\"\" /[\\x00-\\x7f]*?/ /(?<!\\\\)(\\\\\\\\)*?/ \"\\\"\"", "C12.R4")
+# a class the syntax-tree inspection does not understand: undecided, never violated
+T("C12", "twin-gram-undecided-dot-or-space", "c2profile.lark", "STRING: \"\\\"\" /(.|\\n)*?/ /(?<!\\\\)(\\\\\\\\)*?/ \"\\\"\"", "STRING: \"\\\"\" /(.|\\s)*?/ /(?<!\\\\)(\\\\\\\\)*?/ \"\\\"\"")
